@@ -385,6 +385,131 @@ def thread_start_shape(mod, gep, handovers, spawners):
     return out
 
 
+def sandbox_cfun_shape(mod, gep, regs):
+    """Shape of the two functions behind `(sandbox & keywords)` - the regenerated side of the Lean model `sandboxCfun` /
+    `sandboxOp` (data flow only; loop syntax, block order and local names are free):
+      vm.c janet_sandbox          the sandbox capability is asserted first, then flags |= parameter
+      corelib.c janet_core_sandbox   one call of janet_sandbox; its argument is a local that starts at 0 and is otherwise only
+                                  or-ed with the `flag` field of a SandboxOption reached from sandbox_options[] (base, +1 steps);
+                                  an unknown keyword ends in the noreturn janet_panicf
+    -> list of (function, fact); anything else is listed as ('<fn>', 'unrecognised: ...') and rejected by Lean."""
+    out = []
+    ld32 = r'%[\w.]+ = load i32, i32\* '
+    f = mod.functions.get("janet_sandbox")
+    fact = "unrecognised: janet_sandbox"
+    if f is not None and f.params == 1:
+        try:
+            slot = _param_fixed(f, 0)
+            insts = [i for b in f.blocks for i in b.insts]
+            calls = [i for i in insts if i.kind in ("call", "icall")]
+            stores = [k for k, i in enumerate(insts) if i.kind == "store" and gep in i.text]
+            if calls and calls[0].callee == "janet_sandbox_assert" and len(calls[0].const_args) == 1 and calls[0].const_args[0] is not None \
+                    and len(calls) == 1 and len(stores) == 1 and insts.index(calls[0]) < stores[0] and len(f.blocks) == 1:
+                defs = {x.text.split(" = ")[0]: x.text for x in insts if " = " in x.text}
+                m = re.match(r'store i32 (%[\w.]+), i32\* ' + re.escape(gep) + r',', insts[stores[0]].text)
+                mo = re.match(r'%[\w.]+ = or i32 (%[\w.]+), (%[\w.]+)$', defs.get(m.group(1), "")) if m else None
+                if mo:
+                    ops = [defs.get(o, "") for o in mo.groups()]
+                    if any(gep in o and " load i32" in o for o in ops) and any(re.match(ld32 + re.escape(slot) + r',', o) for o in ops):
+                        fact = "janet_sandbox_assert(%d); flags |= parameter" % (calls[0].const_args[0] & 0xFFFFFFFF)
+        except ExtractError as e:
+            fact = "unrecognised: %s" % e
+    out.append(("janet_sandbox", fact))
+    cf = sorted(regs.get("sandbox", ()))
+    if len(cf) != 1 or cf[0] not in mod.functions:
+        return out + [("sandbox", "unrecognised: binding `sandbox` is not registered to exactly one C function")]
+    f = mod.functions[cf[0]]
+    insts = [i for b in f.blocks for i in b.insts]
+    defs = {x.text.split(" = ")[0]: x.text for x in insts if " = " in x.text}
+    calls = [i for i in insts if i.kind == "call" and i.callee == "janet_sandbox"]
+    if len(calls) != 1 or len(calls[0].args) != 1:
+        return out + [(f.name, "unrecognised: not exactly one call of janet_sandbox")]
+    m = re.match(ld32 + r'(%[\w.]+),', defs.get(calls[0].args[0][1], ""))
+    if not m:
+        return out + [(f.name, "unrecognised: argument of janet_sandbox is not a local")]
+    X = m.group(1)
+    pat = re.compile(r'(?<![\w.])' + re.escape(X) + r'(?![\w.])')
+    zero = ors = 0
+    optvars = set()
+    bad = None
+
+    def flag_field(d, depth):
+        """the instruction text `d` loads `opt->flag` (field 1 of a SandboxOption reached through a pointer local), or loads
+        an i32 local that is only ever assigned such values (`uint32_t bit = opt->flag; mask |= bit;`)"""
+        mf = re.match(ld32 + r'(%[\w.]+),', d)
+        if not mf or depth > 2:
+            return False
+        src = mf.group(1)
+        mg = re.match(r'%[\w.]+ = getelementptr inbounds %struct\.SandboxOption, %struct\.SandboxOption\* (%[\w.]+), i32 0, i32 1$', defs.get(src, ""))
+        if mg:
+            mp = re.match(r'%[\w.]+ = load %struct\.SandboxOption\*, %struct\.SandboxOption\*\* (%[\w.]+),', defs.get(mg.group(1), ""))
+            if mp:
+                optvars.add(mp.group(1))
+                return True
+            # sandbox_options[k].flag
+            return bool(re.match(r'%[\w.]+ = getelementptr inbounds \[\d+ x %struct\.SandboxOption\], \[\d+ x %struct\.SandboxOption\]\* @sandbox_options, i64 0, i64 \S+$', defs.get(mg.group(1), "")))
+        if not re.match(re.escape(src) + r' = alloca i32\b', defs.get(src, "")) or src == X:
+            return False
+        pl = re.compile(r'(?<![\w.])' + re.escape(src) + r'(?![\w.])')
+        n = 0
+        for j in insts:
+            if not pl.search(j.text) or re.match(re.escape(src) + r' = alloca i32\b', j.text) or re.match(ld32 + re.escape(src) + r',', j.text):
+                continue
+            mst = re.match(r'store i32 (%[\w.]+), i32\* ' + re.escape(src) + r',', j.text)
+            if not mst or not flag_field(defs.get(mst.group(1), ""), depth + 1):
+                return False
+            n += 1
+        return n > 0
+    for i in insts:
+        t = i.text
+        if not pat.search(t):
+            continue
+        if re.match(re.escape(X) + r' = alloca i32\b', t) or re.match(ld32 + re.escape(X) + r',', t):
+            continue
+        ms = re.match(r'store i32 (\S+), i32\* ' + re.escape(X) + r',', t)
+        if not ms:
+            bad = "the mask local is used in: " + t[:70]
+            break
+        if ms.group(1) == "0":
+            zero += 1
+            continue
+        mo = re.match(r'%[\w.]+ = or i32 (%[\w.]+), (%[\w.]+)$', defs.get(ms.group(1), ""))
+        ok = False
+        if mo:
+            a_, b_ = [defs.get(o, "") for o in mo.groups()]
+            if re.match(ld32 + re.escape(X) + r',', b_):
+                a_, b_ = b_, a_
+            if re.match(ld32 + re.escape(X) + r',', a_) and flag_field(b_, 0):
+                ok = True
+        if not ok:
+            bad = "the mask local is assigned: " + (defs.get(ms.group(1), "") or t)[:70]
+            break
+        ors += 1
+    if bad or zero != 1 or ors < 1:
+        return out + [(f.name, "unrecognised: " + (bad or "mask local: %d stores of 0, %d or-stores" % (zero, ors)))]
+    out.append((f.name, "mask := 0; mask |= opt->flag; janet_sandbox(mask)"))
+    # where `opt` comes from
+    fact = "opt := sandbox_options; opt++"
+    for ov in sorted(optvars):
+        for i in insts:
+            ms = re.match(r'store %struct\.SandboxOption\* (.+), %struct\.SandboxOption\*\* ' + re.escape(ov) + r',', i.text)
+            if not ms:
+                if re.search(r'(?<![\w.])' + re.escape(ov) + r'(?![\w.])', i.text) and " = alloca " not in i.text and " = load " not in i.text:
+                    fact = "unrecognised: the option pointer is used in: " + i.text[:60]
+                continue
+            v = ms.group(1)
+            if re.match(r'getelementptr inbounds \(\[\d+ x %struct\.SandboxOption\], \[\d+ x %struct\.SandboxOption\]\* @sandbox_options, i64 0, i64 0\)$', v):
+                continue
+            mg = re.match(r'%[\w.]+ = getelementptr inbounds %struct\.SandboxOption, %struct\.SandboxOption\* (%[\w.]+), i32 1$', defs.get(v, ""))
+            if mg and re.match(r'%[\w.]+ = load %struct\.SandboxOption\*, %struct\.SandboxOption\*\* ' + re.escape(ov) + r',', defs.get(mg.group(1), "")):
+                continue
+            fact = "unrecognised: the option pointer is assigned: " + (defs.get(v, "") or v)[:60]
+    out.append((f.name, fact))
+    pan = [b for b in f.blocks if b.term == "unreachable" and any(i.kind == "call" and (i.callee or "").startswith("janet_panic") for i in b.insts)]
+    out.append((f.name, "unknown keyword: janet_panic*; unreachable" if pan else "unrecognised: no panic path"))
+    return out
+
+
 def extract(build, ir_text=None):
     sens, benign, exempt, spawners, caps = cap_tables()
     tree = build.tree
@@ -407,6 +532,7 @@ def extract(build, ir_text=None):
     M.options = sandbox_options(mod)
     regs, methods = registration_tables(mod)
     M.regs, M.methods = regs, methods
+    M.sandbox_shape = sandbox_cfun_shape(mod, gep, regs)
     src_regs = source_registrations(tree)
     missing = sorted(n for n in regs if n not in src_regs)
     if missing:
@@ -1346,6 +1472,8 @@ def render(M, C, origin="current tree"):
     o.append("abbrev flagWrites : List (String × String) := [" + ", ".join("(%s, %s)" % (_lstr(a), _lstr(b)) for a, b in M.flag_writes) + "]\n")
     o.append("/-- how a new thread gets its flag word: the `copy` store and every site that hands its function to a spawner (tools/gen/sandbox.py thread_start_shape) -/")
     o.append("abbrev threadStart : List (String × String) := [" + ", ".join("(%s, %s)" % (_lstr(a), _lstr(b)) for a, b in M.thread_start) + "]\n")
+    o.append("/-- data-flow shape of vm.c janet_sandbox and of the C function registered as `sandbox` (tools/gen/sandbox.py sandbox_cfun_shape) -/")
+    o.append("abbrev sandboxShape : List (String × String) := [" + ", ".join("(%s, %s)" % (_lstr(a), _lstr(b)) for a, b in M.sandbox_shape) + "]\n")
     o.append("/-- functions that execute an overwrite of the whole VM state and are reachable (direct calls) from an address-taken function -/")
     o.append("abbrev externals : List String := [" + ", ".join(_lstr(x) for x in M.externals) + "]\n")
     o.append("/-- untrusted: index of each external in `Cap.allKnown` (an unclassified symbol gets an index past the end) -/")
